@@ -7,6 +7,32 @@ from . import scenes
 
 CKPT = scenes.RUN + "/checkpoint.json"
 
+# model-defining CLI option vectors that load and evaluate on the pinned tree
+CLI_MODEL_VECTORS = [
+    ["--clock", "strict", "--coalescent", "constant"],
+    ["--clock", "strict", "--coalescent", "exponential", "--heights", "shift"],
+    ["--clock", "strict", "--coalescent", "skygrid", "--grid", "5", "--cutoff", "10", "-m", "HKY", "-C", "4"],
+    ["--clock", "strict", "--coalescent", "skyride", "-m", "GTR", "-I"],
+    ["--clock", "strict", "--coalescent", "skyride", "--disable_time_aware"],
+    ["--clock", "strict", "--coalescent", "piecewise-constant", "--grid", "4", "--cutoff", "8"],
+    ["--clock", "strict", "--coalescent", "piecewise-linear", "--grid", "4", "--cutoff", "8"],
+    ["--clock", "strict", "--coalescent", "skyglide", "--grid", "4", "--cutoff", "8"],
+    ["--clock", "strict", "--coalescent", "skygrid", "--grid", "5", "--cutoff", "10", "--gmrf_integrated"],
+    ["--clock", "strict", "--coalescent", "skygrid", "--grid", "5", "--cutoff", "10", "--coalescent_non_centered"],
+    ["--clock", "ucln", "--coalescent", "constant"],
+    ["--clock", "strict", "--birth-death", "bdsk", "--grid", "3"],
+    ["--clock", "strict", "--coalescent", "constant", "--use_tip_states"],
+    ["--clock", "strict", "--coalescent", "constant", "--include_jacobian"],
+    ["-m", "JC69"],
+    ["-m", "HKY", "-C", "4", "-I"],
+    ["-m", "GTR", "-C", "3"],
+    ["-m", "K80"],
+    ["-m", "SYM"],
+    ["-m", "GTR", "--brlenspr", "gammadir"],
+    ["-m", "SRD06"],
+    ["-m", "HKY", "--use_ambiguities"],
+]
+
 _OPTIMIZERS = {
     "SGD": {"lr": 0.05},
     "SGD-momentum": {"lr": 0.05, "momentum": 0.9},
